@@ -51,7 +51,10 @@ FAMILY = [
     ("p/addn-5/x.unknownext", "p/addn-5", "file"),
     ("p/addn-~X~/lnk~E", "p", "cmd"),
     ("p/sub", "p", "cmd"),
+    ("p/twice", "p", "cmd"),          # text -> longer text: same state type before and after
+    ("q/twice", "q", "cmd"),          # int -> larger int
 ]
+SP_DATA = {"p/twice": "ab", "q/twice": 7}
 VALUES = {"p/mkval-0": None, "p/mkval-1": 5, "p/mkval-2": "txt", "p/mkval-3": {"a": 1}, "p/mkval-4": b"by"}
 STORE_KEYS = {"p/mkval-1": "res/v.json", "p/mkval-2": "res/v.txt", "p/mkval-3": "res/v.json", "p/mkval-4": "res/v.b", "p/boom": "res/f.txt", "p/evalexc": "res/g.txt", "p/subfail": "res/h.txt"}
 
@@ -64,7 +67,7 @@ def ob_metadata_step(v: int, keepv: int, pvol: bool, with_store: bool) -> bool:
     q, ptext, kind = FAMILY[part("q")]
     with_store = bool(with_store) and q in STORE_KEYS
     pvars = {"active_namespaces": ["n2", "root"]} if ptext == "p/ns-n2" else {}
-    sp = mkstate(ptext, Box(v), volatile=pvol, vars=pvars, attributes={"Persist": keepv, "lower": 1},
+    sp = mkstate(ptext, SP_DATA.get(q, Box(v)), volatile=pvol, vars=pvars, attributes={"Persist": keepv, "lower": 1},
                  commands=[["addn", "5"]] if ptext == "p/addn-5" else ([["ns", "n2"]] if ptext == "p/ns-n2" else []))
     subs = {ptext: sp, "/lnk": mkstate("/lnk", 2), "one/addn-2": mkstate("one/addn-2", Box(3)), "bad/q": mkstate("bad/q", None, error=True)}
     cache = MemoryCache()
@@ -102,6 +105,12 @@ def ob_metadata_step(v: int, keepv: int, pvol: bool, with_store: bool) -> bool:
     ok = ok and m["data_characteristics"]["type_identifier"] == type_identifier_of(out.data)
     if q in VALUES:
         ok = ok and m["data_characteristics"].get("description") == data_characteristics(VALUES[q]).get("description")
+    if q in SP_DATA:
+        # the description is that of the RESULT, not of the (same-typed) input
+        ok = ok and out.data == SP_DATA[q] + SP_DATA[q]
+        ok = ok and m["data_characteristics"].get("description") == data_characteristics(SP_DATA[q] + SP_DATA[q]).get("description")
+        if cm is not None:
+            ok = ok and cm.get("data_characteristics", {}).get("description") == m["data_characteristics"].get("description")
     if kind == "cmd":
         action = parse(q).segments[-1].query[-1]
         name = action.name
@@ -169,6 +178,31 @@ def ob_metadata_prederr(v: int, with_store: bool, pvol: bool) -> bool:
     return check(ok)
 
 
+def ob_metadata_hit_store(v: int, first_with_key: bool) -> bool:
+    """
+    pre: 0 <= v <= 9
+    post: _
+    """
+    # a result served from a warm cache is saved under store_key just like a freshly computed one
+    q, key = "p/mkval-2", "res/v.txt"
+    cache = MemoryCache()
+    store = MemoryStore()
+
+    def subs():
+        return {"p": mkstate("p", Box(v))}
+    with quiet():
+        c1 = HContext(cache, subs(), store=store)
+        o1 = c1.evaluate(q, store_key=(key if first_with_key else None))
+        del CALLS[:]
+        c2 = HContext(cache, subs(), store=store)
+        o2 = c2.evaluate(q, store_key=key)
+    ok = (not o1.is_error) and (not o2.is_error) and CALLS == [] and o2.data == "txt"
+    ok = ok and bool(store.contains(key)) and store.get_bytes(key) == b"txt"
+    sm = store.get_metadata(key)
+    ok = ok and sm.get("query") == q and sm.get("status") == "ready" and sm.get("type_identifier") == "text" and sm.get("key") == key
+    return check(ok)
+
+
 EXTS = sorted(MIMETYPES.keys())
 
 
@@ -216,6 +250,7 @@ def obligations(tier):
     for i in range(3):
         obs.append(Ob("ob_metadata_prederr", dict(q=i), timeout=t, per_path=60, twin_timeout=60,
                       bounds="failure upstream: Q=%s with an ERROR predecessor; returned metadata, MemoryCache copy and store copy" % ["p/addn-5", "p/addn-5/out.json", "p/tagged"][i]))
+    obs.append(Ob("ob_metadata_hit_store", {}, timeout=t, per_path=60, twin_timeout=60, bounds="cache hit + store_key: the served result and its metadata are saved under the key"))
     obs.append(Ob("ob_mimetype", {}, timeout=t, per_path=30, bounds="every extension of constants.MIMETYPES (%d) + one unknown, lower/upper case" % len(EXTS)))
     obs.append(Ob("ob_wrapper", dict(n=2 if q else 3), timeout=t, per_path=30, bounds="Metadata wrapper: <=%d assignments to status (4 values) / is_error" % (2 if q else 3)))
     return obs
